@@ -17,8 +17,8 @@ RULE = ("real TransitSender/TransitReceiver negotiate over SimNet, then record s
         "(for tamper cases) the altered frame was fed to the receiver; distinct = (op, field, index, "
         "direction, reader mode, record sizes).")
 ASSUMPTIONS = ["SimNet fidelity", "sizes <= 300 kB, <= 40 records per direction"]
-FLOORS = {"quick": {"records_surfaced": 5000, "tampers_fed": 200, "clean_complete": 200},
-          "thorough": {"records_surfaced": 140000, "tampers_fed": 2500, "clean_complete": 5000}}
+FLOORS = {"quick": {"records_surfaced": 5000, "tampers_fed": 200, "clean_complete": 200, "idle_sessions": 50},
+          "thorough": {"records_surfaced": 140000, "tampers_fed": 2500, "clean_complete": 5000, "idle_sessions": 1300}}
 SIZES = [0, 1, 4, 24, 40, 100, 1000, 65535, 65536, 65537]
 OPS = [("flip", "length"), ("flip", "nonce"), ("flip", "tag"), ("flip", "body"), ("delete", None),
        ("swap", None), ("replay", None), ("truncate", None), ("inject", None), ("reflect", None)]
@@ -30,6 +30,9 @@ def cases(tier, seed, prep=None):
     q = tier == "quick"
     for i in range(300 if q else 8000):
         out.append({"kind": "clean", "seed": seed * 1000003 + 600000 + i})
+    # a session that stays open for minutes: an idle stretch (61-900 virtual s) in the middle of the record flow
+    for i in range(60 if q else 1500):
+        out.append({"kind": "clean", "seed": seed * 1000003 + 690000 + i, "idle": [61, 75, 130, 900][i % 4], "idle_after": i % 3})
     k = 0
     reps = 2 if q else 12
     for rep in range(reps):
@@ -92,6 +95,7 @@ def run_case(spec):
 
     attached_alive = [False, False]
     partial = [None, None]
+    limit = [1 << 30, 1 << 30]
 
     def attach_consumer(d):
         rx = conns[1 - d]
@@ -128,7 +132,7 @@ def run_case(spec):
         def actions(self_):
             acts = []
             for d in (0, 1):
-                if sent[d] < len(plans[d]) and not closed_by_app[d]:
+                if sent[d] < min(len(plans[d]), limit[d]) and not closed_by_app[d]:
                     def snd(d=d):
                         conns[d].send_record(plans[d][sent[d]])
                         sent[d] += 1
@@ -140,6 +144,17 @@ def run_case(spec):
             return acts
         drain_actions = actions
     sch.driver = Drv()
+    idled = 0
+    if spec.get("idle"):
+        # first part of the flow, then nothing happens for a while, then the rest
+        for d in (0, 1):
+            limit[d] = min(len(plans[d]), spec["idle_after"] * max(1, len(plans[d]) // 3))
+        sch.run(30000, until=lambda: sent[0] == limit[0] and sent[1] == limit[1])
+        t0 = r.seconds()
+        r.callLater(spec["idle"], lambda: None)
+        sch.drain(spec["idle"] + 1.0, 40000)
+        idled = int(r.seconds() - t0 >= spec["idle"])
+        limit[0] = limit[1] = 1 << 30
     sch.run(30000, until=lambda: sent[0] == len(plans[0]) and sent[1] == len(plans[1]))
     sch.drain(30.0, 40000)
     for d in (0, 1):
@@ -249,7 +264,7 @@ def run_case(spec):
                       [len(x) for x in plans[0]][:10], [len(x) for x in plans[1]][:10], sch.tiny_budget]
     return {"violations": viol, "nontrivial": nontrivial,
             "counters": {"records_surfaced": total_surfaced, "tampers_fed": tampers_fed,
-                         "clean_complete": int(clean and not viol), "partial_consumers": sum(1 for x in partial if x is not None), "records_sent": sent[0] + sent[1],
+                         "clean_complete": int(clean and not viol), "idle_sessions": idled, "partial_consumers": sum(1 for x in partial if x is not None), "records_sent": sent[0] + sent[1],
                          "bytes": sum(len(x) for p in plans for x in p), "steps": world.step,
                          **{"mode_" + m: 1 for m in modes}},
             "sample": {"spec": spec, "modes": modes, "sizes0": [len(x) for x in plans[0]][:12], "sizes1": [len(x) for x in plans[1]][:12],
